@@ -304,6 +304,19 @@ def boundary_trees(G):
                     G.set_text(t, title, "ts", "title")
                     G.set_text(t, "", "cps", "caption")
                     out.append(t)
+    # ratio columns beside ratio-less ones (the width solver's zero-ratio slot), expanding or not, squeezed by the table's
+    # own width / min_width options - all valid options; rendered at every width of WIDTHS, far below the structural minimum too
+    def col(ratio, w=0):
+        # ratio None = adapt to the contents (recipe value 0); "z" = an explicit ratio of 0, a flexible column without a share
+        return dict(hdr=txt("h"), ftr=txt(""), w=w, minw=0, maxw=0, ratio=0 if ratio == "z" else ratio, rz=ratio == "z", nw=False, jus="left", ov="fold")
+    for ratios in ((1, 0), (0, 1), (1, 1), (2, 0, 1), (0, 0), (1,), (1, "z"), ("z", 1), ("z", "z"), (2, "z", 1), ("z",)):
+        for ex in (False, True):
+            for box in ("SQUARE", "none"):
+                for w, minw in ((0, 0), (1, 0), (0, 8), (1, 30), (5, 30), (0, 250)):
+                    t = dict(base_table, cols=[col(r) for r in ratios], rows=[[txt("x yy") for _ in ratios]], ex=ex, box=box, w=w, minw=minw)
+                    G.set_text(t, "", "ts", "title")
+                    G.set_text(t, "", "cps", "caption")
+                    out.append(t)
     for ex in (False, True):
         for eq in (False, True):
             t = dict(k="columns", ch=[], w=0, pl=1, pr=1, pt=0, pb=0, ex=ex, eq=eq, cf=False, rtl=False, al="none")
